@@ -288,6 +288,36 @@ func c11(c *Ctx) {
 	}
 
 	c.R.Rule("R11.3", "author constraints are carried", 9, "required lists, CEL rules, oneOf or preserve-unknown-fields of the XRD would be dropped from the CRD")
+	// … from the schema as the author wrote it: parseSchema decodes and does not edit
+	if ps := c.fn(pkgXCRD, "parseSchema"); ps != nil {
+		var edit ssa.Instruction
+		for _, b := range ps.Blocks {
+			for _, in := range b.Instrs {
+				switch x := in.(type) {
+				case *ssa.MapUpdate:
+					edit = x
+				case *ssa.Store:
+					switch x.Addr.(type) {
+					case *ssa.FieldAddr, *ssa.IndexAddr:
+						if _, isAlloc := flow.Root(x.Addr).(*ssa.Alloc); isAlloc {
+							if cfgx.ZeroRead(x.Val) {
+								continue
+							}
+							if k, isC := x.Val.(*ssa.Const); isC && k.Value == nil {
+								continue
+							}
+							edit = x
+						}
+					}
+				}
+			}
+		}
+		p := ps.Pos()
+		if edit != nil {
+			p = edit.Pos()
+		}
+		c.R.Check(edit == nil, load.FuncName(ps)+": pure decode", c.pos(p), "the author's schema is unmarshalled and handed on unchanged", "parseSchema edits the decoded schema: what the CRD generators carry over is no longer what the author wrote (required lists, properties)")
+	}
 	if gen != nil {
 		isAuthor := authorDerived(gen)
 		want := map[string]int{"Required": 2, "XValidations": 2, "OneOf": 2, "XPreserveUnknownFields": 1}
